@@ -2,6 +2,7 @@
 #![allow(clippy::all)]
 #![allow(dead_code)]
 
+mod builds;
 mod c01;
 mod c08;
 mod c10;
@@ -14,6 +15,7 @@ mod defs;
 mod feed;
 mod ieng;
 mod meng;
+mod prog;
 mod refm;
 mod rng;
 mod sched;
@@ -63,6 +65,9 @@ fn main() {
 		"C08" => dispatch!(c08::C08, args),
 		"C17" => dispatch!(c17::C17, args),
 		"C12" => dispatch!(c12::C12, args),
+		"C19" => dispatch!(builds::BuildCheck { id: "C19" }, args),
+		"C20" => dispatch!(builds::BuildCheck { id: "C20" }, args),
+		"transcript" => builds::transcript_main(&args[2..]),
 		"C09" => dispatch!(sched::SchedCheck { id: "C09" }, args),
 		"C13" => dispatch!(sched::SchedCheck { id: "C13" }, args),
 		"selfcheck-determinism" => {
